@@ -171,7 +171,7 @@ def run_smtp_case(case):
                 else:
                     applies_all.append((stage, outc, cls_))
             greets = [st_ for (_, _, st_, o_) in slices if st_ in ('EHLO', 'EHLO2', 'HELO', 'LHLO', 'LHLO2') and o_ == '2xx']
-            if case.get('auth') and greets and greets[-1] == 'HELO':
+            if case.get('auth') and greets and all(x == 'HELO' for x in greets):
                 applies_all.append(('AUTH', 'not offered after HELO fallback', 'perm'))
             if applies_all or applies_rcpt:
                 if any(o == '2xx' for (_, _, _, o) in slices):
